@@ -4,6 +4,8 @@ mod core;
 mod pool;
 mod props;
 mod refmodel;
+mod replay;
+mod selfcheck;
 mod report;
 mod spaces;
 mod subject;
@@ -25,8 +27,8 @@ fn main() {
     subject::install_panic_hook();
     let verif_dir = std::env::var("VERIF_DIR").unwrap_or_else(|_| "/verif".to_string());
     match args[1].as_str() {
-        "selfcheck" => match refmodel::selfcheck_internal() {
-            Ok(s) => println!("{}", s),
+        "selfcheck" => match selfcheck::run(true) {
+            Ok(s) => println!("{}", s.join("\n")),
             Err(e) => {
                 eprintln!("MACHINERY: reference self-check failed: {}", e);
                 std::process::exit(2);
@@ -60,6 +62,12 @@ fn main() {
                 println!("digest: {:?}/iter", t.elapsed() / 50);
             }
         }
+        "replay" => {
+            if args.len() < 3 {
+                usage();
+            }
+            std::process::exit(replay::main(&args[2]));
+        }
         "check" => {
             if args.len() < 3 {
                 usage();
@@ -86,6 +94,10 @@ fn main() {
             }
             let seed = std::env::var("VERIF_SEED").ok().and_then(|s| s.parse::<i64>().ok()).unwrap_or(0) as u64;
             let ctx = Ctx { prop, tier, seed, verif_dir };
+            if let Err(e) = selfcheck::run(false) {
+                eprintln!("MACHINERY: reference self-check failed: {}", e);
+                std::process::exit(2);
+            }
             let t0 = std::time::Instant::now();
             let col = match props::run(&ctx) {
                 Some(c) => c,
